@@ -1,5 +1,6 @@
 import AL.Model.Parser
 import AL.Spec.ExprGrammar
+import AL.Lemmas.ParserComplete
 /-
   C04 — the expression parser accepts exactly the documented grammar.
   Statements; proved theorems are added below by name.
@@ -54,5 +55,193 @@ def precedence_statement : Prop :=
     Der .or (a ++ o :: (b ++ p :: c)) (.logical .and (.cmp .eq ea eb) ec) ∧
     Der .or ((a ++ p :: b) ++ q :: c) (.logical .or (.logical .and ea eb) ec) ∧
     Der .or (a ++ q :: (b ++ p :: c)) (.logical .or ea (.logical .and eb ec))
+
+
+/-! ## Proofs -/
+
+/-! ### a concrete stream for the examples: the tokens of `!a.b == 'x' && c[0] || f(1, 2)` -/
+
+def sy (l : List Nat) : List Sym := l.map fun r => ⟨r, 1, false⟩
+def mkT (k : TokKind) (l : List Nat) : ATok := ⟨⟨k, sy l, 0, 1, 1⟩, none, 0⟩
+
+def exPre : Toks :=
+  [mkT .not [33], mkT .ident [97], mkT .dot [46], mkT .ident [98], mkT .eq [61, 61], mkT .string [39, 120, 39],
+   mkT .and [38, 38], mkT .ident [99], mkT .lbracket [91], mkT .int [48], mkT .rbracket [93], mkT .or [124, 124],
+   mkT .ident [102], mkT .lparen [40], mkT .int [49], mkT .comma [44], mkT .int [50], mkT .rparen [41]]
+
+def exEnd : ATok := mkT .end []
+def exToks : Toks := exPre ++ [exEnd]
+
+/-- `((!(a.b) == 'x') && c[0]) || f(1, 2)` -/
+def exExpr : Expr :=
+  .logical .or
+    (.logical .and
+      (.cmp .eq (.not (.objDeref (.var (sy [97])) (sy [98]))) (.str (sy [120])))
+      (.index (.var (sy [99])) (.int 0)))
+    (.call (sy [102]) [.int 1, .int 2])
+
+theorem exToks_wellEnded : WellEnded exToks := ⟨exPre, exEnd, rfl, rfl, by decide⟩
+
+theorem endsEnd_of_wellEnded {ts : Toks} (h : WellEnded ts) : endsEnd ts = true := by
+  obtain ⟨init, last, rfl, hl, _⟩ := h
+  exact endsEnd_append_singleton init last hl
+
+/-- (a) -/
+theorem parse_sound : parse_sound_statement := by
+  intro fuel ts rest e hW h
+  obtain ⟨_, pre, hpre, hd⟩ := (sound_all fuel).1 ts e rest (endsEnd_of_wellEnded hW) h
+  exact ⟨pre, hpre, hd⟩
+
+/-- what the parser returns on the example stream (any fuel ≥ 21 would do) … -/
+example : parseLogicalOr 100 exToks = .ok (exExpr, [exEnd]) := by rfl
+/-- … and hence, by (a), the consumed tokens are a sentence denoting that tree: the premise `Der` of (b),
+(c), (e) is satisfiable on a non-trivial input. -/
+theorem exPre_der : Der .or (toks exPre) exExpr := by
+  obtain ⟨pre, hsplit, hd⟩ := parse_sound 100 exToks [exEnd] exExpr exToks_wellEnded (by rfl)
+  have : pre = exPre := ((List.append_inj' (show exPre ++ [exEnd] = pre ++ [exEnd] from hsplit) rfl).1).symm
+  rw [this] at hd; exact hd
+
+/-- (b) -/
+theorem parse_complete : parse_complete_statement := by
+  intro pre rest e _ hrest hd hcont _ fuel hf
+  exact complete_or hd rfl hrest hcont (by omega)
+
+/-- all hypotheses of (b) hold for the example sentence followed by END (or by `)`, `]`, `,` …) -/
+example : parseLogicalOr (8 * (exToks.length + 1)) (exPre ++ [exEnd]) = .ok (exExpr, [exEnd]) :=
+  parse_complete exPre [exEnd] exExpr exToks_wellEnded (by simp) exPre_der (by rfl) (by decide) _ (Nat.le_refl _)
+/-- the side condition on the next token is necessary: a sentence that ends in a bare identifier and is
+followed by `(` is not what the parser stops behind (`a` `(` … starts a call). -/
+example : Der .or (toks [mkT .ident [97]]) (.var (sy [97])) ∧
+    parseLogicalOr 100 ([mkT .ident [97]] ++ [mkT .lparen [40], mkT .rparen [41], exEnd])
+      = .ok (.call (sy [97]) [], [exEnd]) :=
+  ⟨.orUp (.andUp (.cmpUp (.unaryUp (.postUp (.primIdent rfl))))), by rfl⟩
+
+/-- if a stream whose only END is its last token is split in front of an END token, the split is in
+front of the last token -/
+theorem split_at_end {init pre rest : Toks} {last : ATok} (hinit : ∀ t ∈ init, t.tok.kind ≠ .end)
+    (h : init ++ [last] = pre ++ rest) (hrest : rest ≠ []) (hk : (cur rest).tok.kind = .end) :
+    pre = init ∧ rest = [last] := by
+  match rest, hrest with
+  | r0 :: rs, _ =>
+    rcases List.eq_nil_or_concat rs with rfl | ⟨L, b, rfl⟩
+    · have := List.append_inj' h rfl
+      exact ⟨this.1.symm, by rw [this.2]⟩
+    · have e1 : pre ++ r0 :: L.concat b = (pre ++ r0 :: L) ++ [b] := by simp
+      rw [e1] at h
+      have := (List.append_inj' h rfl).1
+      exact absurd hk (hinit r0 (by rw [this]; simp))
+
+/-- (c) -/
+theorem parse_iff : parse_iff_statement := by
+  intro init last e hlast hinit
+  have hE : endsEnd (init ++ [last]) = true := endsEnd_append_singleton init last hlast
+  constructor
+  · intro h
+    unfold parseToks at h
+    simp only at h
+    split at h
+    · split at h <;> cases h
+    · rename_i root rest hp
+      obtain ⟨hE1, pre, hsplit, hd⟩ := (sound_all _).1 _ _ _ hE hp
+      split at h
+      · cases h
+      · rename_i herr
+        split at h
+        · cases h
+        · rename_i hk
+          have hk : (cur rest).tok.kind = .end := by simpa using hk
+          cases h
+          obtain ⟨rfl, rfl⟩ := split_at_end hinit hsplit (endsEnd_ne_nil hE1) hk
+          exact ⟨hd, herr⟩
+  · rintro ⟨hd, herr⟩
+    have hp := complete_or hd (pre := init) (rest := [last]) rfl (by simp) (by rw [cur_cons, hlast]; rfl)
+      (f := 8 * ((init ++ [last]).length + 1)) (by omega)
+    unfold parseToks
+    simp only [hp, cur_cons, herr, hlast, ne_eq, not_true_eq_false, if_false]
+
+example : parseToks exToks = .ok exExpr := by rfl
+/-- the same via (c) -/
+example : parseToks (exPre ++ [exEnd]) = .ok exExpr :=
+  (parse_iff exPre exEnd exExpr rfl (by decide)).mpr ⟨exPre_der, rfl⟩
+/-- `last.err = none` is needed: the same sentence with a lexer error recorded at END is rejected … -/
+example : parseToks (exPre ++ [{ exEnd with err := some ⟨.unexpectedEOF, ⟨1, 1, 0⟩⟩ }])
+    = .error (.lex ⟨.unexpectedEOF, ⟨1, 1, 0⟩⟩) := by rfl
+/-- … whereas an error annotation on an earlier token is never looked at by the model (it cannot occur in a
+lexed stream, where the error state is monotone and an error ends the stream), so (c) needs no
+monotonicity hypothesis. -/
+example : parseToks ({ mkT .ident [97] with err := some ⟨.unexpectedEOF, ⟨1, 1, 0⟩⟩ } :: [exEnd])
+    = .ok (.var (sy [97])) := by rfl
+
+/-- (d) is false as stated: on a stream that does not end with END the cursor cannot advance past the
+last token (`adv [t] = [t]`, as `p.next()` keeps returning the lexer's last token), so the one-token stream
+`!` makes `parsePrefix` recurse until the fuel is gone. Such a stream is never produced by the lexer. -/
+def notTok : ATok := ⟨⟨.not, [], 0, 1, 1⟩, none, 0⟩
+
+theorem fuel_enough_counterexample : ¬ fuel_enough_statement := by
+  intro h
+  exact h [notTok] ⟨.fuel, 0, 1, 1, none⟩ (by rfl) rfl
+
+example : parseLogicalOr (8 * ([notTok].length + 1)) [notTok] = .error ⟨.fuel, 0, 1, 1, none⟩ := by rfl
+
+/-- (d′) the corrected statement: on every stream that ends with END (what the lexer produces, see
+`lex_well_ended_statement`) the fuel handed in by `parseToks` is never exhausted. -/
+def fuel_enough_statement' : Prop :=
+  ∀ (ts : Toks) (e : ParseErr), WellEnded ts → parseLogicalOr (8 * (ts.length + 1)) ts = .error e → e.msg ≠ .fuel
+
+theorem fuel_enough' : fuel_enough_statement' := by
+  intro ts e hW h
+  exact fuel_enough_of_endsEnd (endsEnd_of_wellEnded hW) (by omega) e h
+
+/-- an error that is not a fuel error, at the fuel of `parseToks`: `! a . )` END -/
+example : parseLogicalOr (8 * (5 + 1)) [mkT .not [33], mkT .ident [97], mkT .dot [46], mkT .rparen [41], exEnd]
+    = .error ⟨.unexpected .deref .rparen, 0, 1, 1, none⟩ := by rfl
+/-- the sharper bound actually proved is `6 * length + 6`; deeply nested input `((((a))))` END at exactly
+that fuel -/
+example : parseLogicalOr (6 * 10 + 6)
+    [mkT .lparen [40], mkT .lparen [40], mkT .lparen [40], mkT .lparen [40], mkT .ident [97],
+     mkT .rparen [41], mkT .rparen [41], mkT .rparen [41], mkT .rparen [41], exEnd]
+    = .ok (.var (sy [97]), [exEnd]) := by rfl
+
+/-- (e) -/
+theorem der_unambiguous : der_unambiguous_statement := by
+  intro ts e₁ e₂ h₁ h₂
+  let pre : Toks := ts.map fun t => ⟨t, none, 0⟩
+  have hpre : tk pre = ts := by simp [pre, tk, List.map_map, Function.comp_def]
+  have p₁ := complete_or h₁ (pre := pre) (rest := [endTok]) hpre (by simp) (by rfl) (Nat.le_refl _)
+  have p₂ := complete_or h₂ (pre := pre) (rest := [endTok]) hpre (by simp) (by rfl) (Nat.le_refl _)
+  rw [p₁] at p₂
+  cases p₂; rfl
+
+example (e : Expr) (h : Der .or (toks exPre) e) : e = exExpr := der_unambiguous _ _ _ h exPre_der
+
+/-- (f) -/
+theorem precedence : precedence_statement := by
+  intro a b c ea eb ec n o p q ha hb hc hn ho hp hq
+  have ua := Der.unaryUp ha
+  have ub := Der.unaryUp hb
+  have uc := Der.unaryUp hc
+  refine ⟨?_, ?_, ?_, ?_⟩
+  · exact .orUp (.andUp (.cmpBin (l := n :: a) (.unaryNot hn ua) (by rw [ho]; rfl) (.cmpUp ub)))
+  · have : a ++ o :: (b ++ p :: c) = (a ++ o :: b) ++ p :: c := by simp
+    rw [this]
+    exact .orUp (.andBin (.cmpBin ua (by rw [ho]; rfl) (.cmpUp ub)) hp (.andUp (.cmpUp uc)))
+  · exact .orBin (.andBin (.cmpUp ua) hp (.andUp (.cmpUp ub))) hq (.orUp (.andUp (.cmpUp uc)))
+  · exact .orBin (.andUp (.cmpUp ua)) hq (.orUp (.andBin (.cmpUp ub) hp (.andUp (.cmpUp uc))))
+
+/-- `a || b.c && d[0]` is `a || (b.c && d[0])`, and by (e) nothing else -/
+example :
+    let a := (mkT .ident [97]).tok; let b := (mkT .ident [98]).tok; let c := (mkT .ident [99]).tok
+    let d := (mkT .ident [100]).tok; let z := (mkT .int [48]).tok
+    Der .or ([a] ++ (mkT .or [124, 124]).tok :: (([b] ++ [(mkT .dot [46]).tok, c]) ++ (mkT .and [38, 38]).tok ::
+        ([d] ++ (mkT .lbracket [91]).tok :: [z] ++ [(mkT .rbracket [93]).tok])))
+      (.logical .or (.var (sy [97])) (.logical .and (.objDeref (.var (sy [98])) (sy [99]))
+        (.index (.var (sy [100])) (.int 0)))) := by
+  intro a b c d z
+  exact (precedence [a] _ _ _ _ _ (mkT .not [33]).tok (mkT .eq [61, 61]).tok _ _
+    (.postUp (.primIdent (t := a) rfl))
+    (.postProp (.postUp (.primIdent (t := b) rfl)) rfl rfl)
+    (.postIndex (.postUp (.primIdent (t := d) rfl)) rfl
+      (.orUp (.andUp (.cmpUp (.unaryUp (.postUp (.primInt (t := z) rfl (by rfl))))))) rfl)
+    rfl rfl rfl rfl).2.2.2
 
 end AL.C04
